@@ -6,6 +6,7 @@
 #include <cstddef>
 #include <cstdint>
 #include <cstring>
+#include <initializer_list>
 #include <string>
 #include <vector>
 
@@ -48,6 +49,20 @@ static inline void *sym(const std::string &name)
                 else hi = mid;
         }
         return nullptr;
+}
+
+// Library calls of the shared executors go through this hook, so that C19/C20 can route the same operations through the
+// register-capturing trampoline (default: a plain call).
+typedef uint64_t (*invoke_fn)(void *fn, const uint64_t *args, int nargs);
+static invoke_fn g_invoke = nullptr;
+static inline uint64_t call_fn(void *fn, std::initializer_list<uint64_t> a)
+{
+        uint64_t v[10] = { 0 };
+        int n = 0;
+        for (uint64_t x : a) v[n++] = x;
+        if (g_invoke) return g_invoke(fn, v, n);
+        typedef uint64_t (*f6)(uint64_t, uint64_t, uint64_t, uint64_t, uint64_t, uint64_t);
+        return ((f6) fn)(v[0], v[1], v[2], v[3], v[4], v[5]);
 }
 
 // ---------------------------------------------------------------- host CPU
